@@ -21,12 +21,13 @@ use std::cell::RefCell;
 
 // ------------------------------------------------------------------------------------------------ what a handler received
 #[derive(Clone, Debug, PartialEq)]
-pub enum Got { Int(String), Str(String), AN(String, u32), AS(String, String), AO(String, Option<u32>), Text(String), Hdr(String), Num(u32), Absent, Present(Box<Got>) }
+pub enum Got { Int(String), Str(String), AN(String, u32), AS(String, String), AO(String, Option<u32>), OO(Option<String>, Option<u32>), Text(String), Hdr(String), Num(u32), Absent, Present(Box<Got>) }
 thread_local! { static LOG: RefCell<Vec<Vec<Got>>> = const { RefCell::new(Vec::new()) }; }
 fn record(g: Vec<Got>) { LOG.with(|l| l.borrow_mut().push(g)) }
 
 #[derive(Deserialize, ohkami::openapi::Schema)] pub struct AN { a: String, n: u32 }
 #[derive(Deserialize, ohkami::openapi::Schema)] pub struct AO { a: String, n: Option<u32> }
+#[derive(Deserialize, ohkami::openapi::Schema)] pub struct OO { a: Option<String>, n: Option<u32> }
 #[derive(Deserialize, ohkami::openapi::Schema)] pub struct AS { a: String, n: String }
 /// a fallible typed header value of the harness (std `u32::from_str`), so that "present but invalid" exists for headers
 pub struct HNum(u32);
@@ -47,6 +48,7 @@ pub trait Canon { fn canon(&self) -> Got; }
 impl Canon for AN { fn canon(&self) -> Got { Got::AN(self.a.clone(), self.n) } }
 impl Canon for AS { fn canon(&self) -> Got { Got::AS(self.a.clone(), self.n.clone()) } }
 impl Canon for AO { fn canon(&self) -> Got { Got::AO(self.a.clone(), self.n) } }
+impl Canon for OO { fn canon(&self) -> Got { Got::OO(self.a.clone(), self.n) } }
 pub trait EchoI: FromRequest<'static> + Send + 'static { fn echo(&self) -> Got; }
 impl<T: Canon + ohkami::openapi::Schema + Send + 'static> EchoI for Query<T> where Query<T>: FromRequest<'static> { fn echo(&self) -> Got { self.0.canon() } }
 impl<T: Canon + ohkami::openapi::Schema + Send + 'static> EchoI for JSON<T> where JSON<T>: FromRequest<'static> { fn echo(&self) -> Got { self.0.canon() } }
@@ -146,6 +148,7 @@ catalogue! {
     "none()|Query<AN>" => h_n_i1::<Query<AN>>;
     "none()|?Query<AN>" => h_n_i1::<Option<Query<AN>>>;
     "none()|Query<AO>" => h_n_i1::<Query<AO>>;
+    "none()|Query<OO>" => h_n_i1::<Query<OO>>;
     "none()|JSON<AN>" => h_n_i1::<JSON<AN>>;
     "none()|?JSON<AN>" => h_n_i1::<Option<JSON<AN>>>;
     "none()|JSON<AO>" => h_n_i1::<JSON<AO>>;
@@ -346,6 +349,7 @@ fn project(g: &Got, vs: &Vals, body: &[u8]) -> (Value, &'static str) {
         Got::Str(t) => (json!(t.chars().map(unchar).collect::<Vec<_>>()), "str"),
         Got::AN(a, n) => (json!([name_an(a, Some(*n))]), "val"),
         Got::AO(a, o) => (json!([name_an(a, *o)]), "val"),
+        Got::OO(a, o) => (json!([match a { Some(a) => name_an(a, *o), None if o.is_none() => "nothing".to_string(), None => format!("other:-/{o:?}") }]), "val"),
         Got::AS(a, n) => (json!([match n.parse::<u32>() { Ok(k) if *n == k.to_string() => name_an(a, Some(k)),
                                    _ if a == vs.a1 && BADN.contains(&n.as_str()) => "v1w".to_string(), _ => format!("other:{a}/{n}") }]), "val"),
         Got::Text(t) => (json!([if t.as_bytes() == body { "body".to_string() } else { format!("other:{}", util::clip(t, 40)) }]), "val"),
@@ -421,23 +425,39 @@ pub fn run(scn: &Value) -> Value {
     raw.extend_from_slice(&body);
     if raw.len() >= 1024 || body.first() == Some(&0) { return json!({"kind": "tool-error", "what": "request outside the agreed envelope"}) }
     // ---- execute on the real code
-    LOG.with(|l| l.borrow_mut().clear());
-    let (out, how) = util::block_on(async {
-        let mut req = v::VRequest::new();
-        let mut rd: &[u8] = &raw;
-        let (res, how) = match req.read(&mut rd).await {
-            Ok(Some(())) => (req.handle(&router).await, "handled"),
-            Ok(None) => return (Vec::new(), "closed"),
-            Err(e) => (e, "refused-by-parser"),
-        };
-        let mut out = Vec::new();
-        v::send(res, &mut out).await;
-        (out, how)
-    });
+    // executed twice: as the first request of a connection object, and as the request that follows one which carried a query, a body, a
+    // Content-Type, cookies and credentials (none of which the request under test may see) -- what Session::manage does between requests.
+    // The second execution is reported when it differs from the first.
+    let exec = |after: bool| -> (Vec<u8>, &'static str, Vec<Vec<Got>>) {
+        LOG.with(|l| l.borrow_mut().clear());
+        let (out, how) = util::block_on(async {
+            let mut req = v::VRequest::new();
+            let mut rd: &[u8] = &raw;
+            if after {
+                let mut pre: &[u8] = b"POST /zz/prelude?a=stale&n=77 HTTP/1.1\r\nHost: prelude\r\nContent-Type: application/json\r\nCookie: a=stale; n=77\r\nAuthorization: Bearer stale\r\nMax-Forwards: 9\r\nContent-Length: 20\r\n\r\n{\"a\":\"stale\",\"n\":77}";
+                if !matches!(req.read(&mut pre).await, Ok(Some(()))) { return (Vec::new(), "prelude-refused") }
+                let _ = req.clear_keeping(0..0);
+            }
+            let read = if after { req.read_following(&mut rd, 0).await.map(|o| o.map(|_| ())) } else { req.read(&mut rd).await };
+            let (res, how) = match read {
+                Ok(Some(())) => (req.handle(&router).await, "handled"),
+                Ok(None) => return (Vec::new(), "closed"),
+                Err(e) => (e, "refused-by-parser"),
+            };
+            let mut out = Vec::new();
+            v::send(res, &mut out).await;
+            (out, how)
+        });
+        (out, how, LOG.with(|l| l.borrow().clone()))
+    };
+    let first = exec(false);
+    let second = exec(true);
+    let strip = |o: &[u8]| -> Vec<u8> { String::from_utf8_lossy(o).lines().filter(|l| !l.to_ascii_lowercase().starts_with("date:")).collect::<Vec<_>>().join("\n").into_bytes() };
+    let differs = strip(&first.0) != strip(&second.0) || first.1 != second.1 || format!("{:?}", first.2) != format!("{:?}", second.2);
+    let (out, how, log) = if differs { second } else { first };
     let p = util::parse_response(&out, method == "HEAD");
-    let log = LOG.with(|l| l.borrow().clone());
     let vals: Vec<Value> = log.first().map(|g| g.iter().map(|x| { let (v, k) = project(x, &vs, &body); json!({"k": k, "v": v}) }).collect()).unwrap_or_default();
-    json!({"kind": "resp", "status": p.status, "ran": log.len(), "vals": vals, "wf": p.error.is_empty(), "how": how, "sent": sent,
+    json!({"kind": "resp", "status": p.status, "ran": log.len(), "vals": vals, "wf": p.error.is_empty(), "how": how, "after": differs, "sent": sent,
            "tag": tag, "method": method, "rbody": util::clip(&String::from_utf8_lossy(&p.body), 160), "head": String::from_utf8_lossy(&raw[..raw.len() - body.len()]).to_string(), "body_hex": util::hex(&body)})
 }
 
